@@ -32,10 +32,19 @@ def gen_libio():
         ld = "PrivateCopy"
     else:
         _fail("load: unknown load discipline")
+    # compile() on a handle returned by load() (no model) must be refused before anything is generated or written (F43):
+    # the guard is the first statement of compile
+    cnode = _method(mod, "CompiledLogicNet", "compile")
+    body = [st for st in cnode.body if not (isinstance(st, ast.Expr) and isinstance(st.value, ast.Constant))]
+    first = body[0] if body else None
+    requires_model = (isinstance(first, ast.If) and ast.unparse(first.test) == "self.model is None"
+                      and len(first.body) == 1 and isinstance(first.body[0], ast.Raise) and not first.orelse)
     passes_bits = "self = CompiledLogicNet(None, num_bits=num_bits)" in load
     sets_shape = "self.input_shape = input_shape" in load and "self.num_classes = num_classes" in load
     out = HEADER + "Inductive save_discipline := InPlace | AtomicRename.\nInductive load_discipline := ByPath | PrivateCopy.\n"
     out += f"Definition save_mode : save_discipline := {save}.\nDefinition load_mode : load_discipline := {ld}.\n"
     out += f"Definition load_passes_num_bits : bool := {'true' if passes_bits else 'false'}.\n"
     out += f"Definition load_sets_shape_and_classes : bool := {'true' if sets_shape else 'false'}.\n"
+    out += ("(* compile() starts by refusing an instance without a model (a handle returned by load) *)\n"
+            f"Definition compile_requires_model : bool := {'true' if requires_model else 'false'}.\n")
     return out
